@@ -27,7 +27,7 @@ RULE = ("one run = (command variant, step kind of its APDU exchange, injected ou
         "seeded others (thorough: all 65 536 per step kind), time-out before/after processing, write "
         "error, read error before/after, unexpected opcode; non-trivial = the fault fired; distinct = "
         "tuple (variant, step kind, outcome class, status word)")
-TIERS = {"quick": {"runs": 16000, "wall": 120}, "thorough": {"runs": 200000, "wall": 2400}}
+TIERS = {"quick": {"runs": 60000, "wall": 240}, "thorough": {"runs": 400000, "wall": 3000}}
 EXHAUSTIVE = {"quick": False, "thorough": True}
 COMPONENTS = {
     "real": ["comm.server._RequestHandler", "comm.protocol", "comm.protocol_v1", "ledger.protocol",
